@@ -36,7 +36,7 @@ inductive DSt where
 def parseOpts : List Sx → Option (List Nat)
   | [] => some []
   | .atom a :: rest =>
-    if a = "layout=start" || a = "layout=end" then parseOpts rest
+    if a = "layout=start" || a = "layout=end" || a = "layout=account" then parseOpts rest
     else
       match parseRefuse a, parseOpts rest with
       | some r, some [] => some r
@@ -45,7 +45,7 @@ def parseOpts : List Sx → Option (List Nat)
 
 def parseLayoutOnly : List Sx → Bool
   | [] => true
-  | [.atom a] => a = "layout=start" || a = "layout=end"
+  | [.atom a] => a = "layout=start" || a = "layout=end" || a = "layout=account"
   | _ => false
 
 def header (line : String) : DSt :=
@@ -83,70 +83,14 @@ def header (line : String) : DSt :=
 
 /-! ## One line on one buffer -/
 
-inductive Ans where
-  | bad
-  | panic
-  | panicDrop
-  /-- a call that returned -/
-  | res (r : Except Err Ret) (evs : List Ev)
-  deriving Inhabited
-
-/-- The live pointer of the innermost level. -/
-def curPtr (s : Shape) (X : PBuf) : Option (List TStep × Shape × PtrTree) := locTree s X.root X.cur
-
-/-- Execute a parsed line for buffer `x`. `keepBad`: after a swap the navigation's side effects remain
-even when the line turns out inapplicable. -/
+/-- Execute a parsed line for buffer `x` (the semantics is `Unsized.PtrM.exec*`). -/
 def execLine (s : Shape) (w : World) (x : Which) (keepBad : Bool) (raw : RawCmd) : World × Ans :=
-  let X := w.get x
   match raw with
-  | .leave =>
-    if X.levels.length ≤ 1 then (w, .bad)
-    else (w.set x { X with levels := X.levels.dropLast }, .res (.ok .unit) [])
-  | .reborrow =>
-    if !checkTop X.rng X.root then (w.set x { X with finished := true }, .panicDrop)
-    else
-      match getPtr s X.mem.bytes X.base with
-      | .ok (root, _) => (w.set x { X with root := root, levels := [[]] }, .res (.ok .unit) [])
-      | .error _ => (w.set x { X with levels := [[]] }, .res (.error .parse) [])
-  | .enter st =>
-    match curPtr s X with
-    | none => (w, .bad)
-    | some (tp0, sh0, t0) =>
-      match walk w false sh0 t0 [st] with
-      | (t0', out) =>
-        let w' := w.set x { X with root := (replaceAt X.root tp0 t0').getD X.root }
-        match out with
-        | .bad => (if keepBad then w' else w, .bad)
-        | .panic => (w'.set x { (w'.get x) with finished := true }, .panic)
-        | .ioob => (w', .res (.error .ioob) [])
-        | .perr => (w', .res (.error .parse) [])
-        | .ok _ _ =>
-          let X' := w'.get x
-          (w'.set x { X' with levels := X'.levels ++ [X'.cur ++ [st]] }, .res (.ok .unit) [])
-  | .op p o => go p (fun _ => some o)
-  | .replace p sx => go p (fun sh => (toVal sh sx).map Op.replace)
-where
-  go (p : List Step) (mk : Shape → Option Op) : World × Ans :=
-    let X := w.get x
-    match curPtr s X with
-    | none => (w, .bad)
-    | some (tp0, sh0, t0) =>
-      match walk w false sh0 t0 p with
-      | (t0', out) =>
-        let w' := w.set x { X with root := (replaceAt X.root tp0 t0').getD X.root }
-        match out with
-        | .bad => (if keepBad then w' else w, .bad)
-        | .panic => (w'.set x { (w'.get x) with finished := true }, .panic)
-        | .ioob => (w', .res (.error .ioob) [])
-        | .perr => (w', .res (.error .parse) [])
-        | .ok tp sh =>
-          match mk sh with
-          | none => (if keepBad then w' else w, .bad)
-          | some op =>
-            match opAt w' x ⟨s, X.cur ++ p⟩ (tp0 ++ tp) sh op with
-            | (_, .bad) => (if keepBad then w' else w, .bad)
-            | (w2, .panic) => (w2, .panic)
-            | (w2, .done r evs) => (w2, .res r evs)
+  | .leave => execLeave w x
+  | .reborrow => execReborrow s w x
+  | .enter st => execEnter s w x keepBad st
+  | .op p o => execOp s w x keepBad p (fun _ => some o)
+  | .replace p sx => execOp s w x keepBad p (fun sh => (toVal sh sx).map Op.replace)
 
 /-- `swap pA pB`. -/
 def execSwap (s : Shape) (w : World) (pa pb : List Step) : World × String :=
